@@ -12,10 +12,10 @@ use vh::*;
 fn gen_stmt(r: &mut Rng, keys: &[i64], init: &Init) -> Stmt {
     let connected: Vec<i64> = init.edges.iter().flat_map(|(a, b)| [init.nodes[*a].0, init.nodes[*b].0]).collect();
     match r.below(12) {
-        0 | 1 => Stmt::Create(gen_rows(r, keys, true)),
-        2 => Stmt::Create(gen_rows(r, keys, false)),
-        3 | 4 => Stmt::Set(r.below(2) as u8, gen_rows(r, keys, true)),
-        5 => Stmt::Set(r.below(2) as u8, gen_rows(r, keys, false)),
+        0 | 1 => Stmt::Create(gen_rows(r, keys, true, true)),
+        2 => Stmt::Create(gen_rows(r, keys, false, false)),
+        3 | 4 => Stmt::Set(r.below(2) as u8, gen_rows(r, keys, true, false)),
+        5 => Stmt::Set(r.below(2) as u8, gen_rows(r, keys, false, false)),
         6 | 7 => {
             // refused delete when the node is connected
             let k = if !connected.is_empty() && r.chance(3, 4) { *r.pick(&connected) } else { r.range(1, 7) };
@@ -47,9 +47,6 @@ fn main() {
         (conn.clone(), true, vec![Stmt::Set(1, vec![(3, Cell::Int(9))]), Stmt::Delete(false, 1), Stmt::Syntax(0), Stmt::Link(3, 2)]),
         (conn.clone(), true, vec![Stmt::Set(0, vec![(1, Cell::Int(7)), (2, Cell::Bad), (3, Cell::Int(1))])]),
         (conn.clone(), false, vec![Stmt::Set(0, vec![(1, Cell::Int(7)), (2, Cell::Bad), (3, Cell::Int(1))]), Stmt::Delete(false, 2)]),
-        // resource-limit violation at row 2 (range() above max_collection_items), both modes
-        (empty.clone(), true, vec![Stmt::Create(vec![(1, Cell::Int(1)), (2, Cell::Limit), (3, Cell::Int(3))])]),
-        (conn.clone(), false, vec![Stmt::Set(1, vec![(1, Cell::Int(7)), (3, Cell::Limit)]), Stmt::Create(vec![(8, Cell::Limit)])]),
     ];
     for idx in 0..a.n {
         let (init, explicit, stmts) = if idx < corpus.len() {
@@ -114,7 +111,7 @@ fn main() {
     rep.stats(json!({
         "evaluations": a.n,
         "distinct_nontrivial": nontrivial.len(),
-        "rule": "sequences of 1-4 statements (UNWIND-CREATE / UNWIND-MATCH-SET with a per-row expression that raises at a chosen row: a type error (toInteger(true)) or a resource-limit violation (range() above max_collection_items), refused DELETE of connected nodes, DETACH DELETE, MATCH-CREATE relationship, MERGE, syntax errors) on databases of 0-4 nodes with parallel edges and self loops; 60% inside one explicit C API transaction committed afterwards, 40% auto-commit; non-trivial = at least one statement failed, distinct by (database, mode, statements)",
+        "rule": "sequences of 1-4 statements (UNWIND-CREATE / UNWIND-MATCH-SET with a per-row toInteger() that raises at a chosen row, refused DELETE of connected nodes, DETACH DELETE, MATCH-CREATE relationship, MERGE, syntax errors) on databases of 0-4 nodes with parallel edges and self loops; 60% inside one explicit C API transaction committed afterwards, 40% auto-commit; non-trivial = at least one statement failed, distinct by (database, mode, statements)",
         "histogram": hist,
         "direct_failures": fails,
         "case_files": cw.files.iter().map(|p| p.to_string_lossy().to_string()).collect::<Vec<_>>(),
